@@ -144,6 +144,11 @@ func (f *frame) execCall(instr ssa.Value, call *ssa.CallCommon) {
 	}
 	// ---- static callee
 	if fn := call.StaticCallee(); fn != nil {
+		if fn.String() == "sort.Sort" && len(call.Args) == 1 {
+			if mi, ok := call.Args[0].(*ssa.MakeInterface); ok {
+				f.sortArg = mi
+			}
+		}
 		// direct call of a closure made in this function
 		if mc, ok := call.Value.(*ssa.MakeClosure); ok {
 			cv := f.val(mc).(*ClosureV)
@@ -181,10 +186,27 @@ func (f *frame) callFunction(fn *ssa.Function, args []Val, bindings []Val, pos t
 	v := f.v
 	key := v.eng.funcKey(fn)
 	sig := fn.Signature
+	// sort.Sort(data): the assumed contract is per concrete slice type
+	if key == "sort.Sort" && f.sortArg != nil {
+		mi := f.sortArg
+		f.sortArg = nil
+		tk := typeKey(mi.X.Type())
+		if n, ok := mi.X.Type().(*types.Named); ok && v.eng.firstParty(n.Obj().Pkg().Path()) {
+			tk = n.Obj().Pkg().Name() + "." + n.Obj().Name()
+		}
+		if fc := v.eng.db.Funcs["sort.Sort:"+tk]; fc != nil {
+			v.trusted["assumed contract: sort.Sort:"+tk] = true
+			return f.applyContract(fc, []Val{f.val(mi.X)}, []types.Type{mi.X.Type()}, sig.Results(), pos)
+		}
+		unsupp("sort.Sort on %s without a contract sort.Sort:%s", mi.X.Type(), tk)
+	}
 	if fc := v.eng.db.Funcs[key]; fc != nil && !fc.Inline {
 		var ptypes []types.Type
-		for _, p := range fn.Params {
-			ptypes = append(ptypes, p.Type())
+		if recv := sig.Recv(); recv != nil {
+			ptypes = append(ptypes, recv.Type())
+		}
+		for i := 0; i < sig.Params().Len(); i++ {
+			ptypes = append(ptypes, sig.Params().At(i).Type())
 		}
 		if fc.Assume {
 			v.trusted["assumed contract: "+key] = true
@@ -537,15 +559,20 @@ func (v *FnVerifier) modLocsOf(cl *Clause, env *TEnv) []modLoc {
 			}
 			sfail("%s:%d: modifies: %s is not a ghost variable", cl.File, cl.Line, x.Name)
 		case ESel:
-			base := env.tr(x.X)
-			path, _, ok := fieldByName(base.T, x.F)
+			baseRef, baseT := env.objRef(x.X)
+			path, _, ok := fieldByName(baseT, x.F)
 			if !ok {
 				sfail("%s:%d: modifies: no field %s", cl.File, cl.Line, x.F)
 			}
-			cur := base
+			cur := TV{baseRef, baseT}
 			for _, i := range path[:len(path)-1] {
-				cur = env.selField(cur, i)
-				// descend: pointer fields are loaded, struct fields become sub refs
+				// embedded struct values become sub-object references, pointers are loaded
+				ft := structOf(cur.T).Field(i).Type()
+				if kindOf(ft) == KStruct {
+					cur = TV{v.subRef(cur.V.(Term), deref(cur.T), i), types.NewPointer(ft)}
+				} else {
+					cur = env.selField(cur, i)
+				}
 			}
 			ref, ok2 := cur.V.(Term)
 			if !ok2 {
@@ -723,4 +750,54 @@ func (v *FnVerifier) frameGoals(entryEnv *TEnv, final *State) map[string]Term {
 			v.now0.S, strings.Join(ins, " "), fin.S, ent.S)
 	}
 	return goals
+}
+
+// objRef evaluates e to the object it denotes: a pointer value, or the address of
+// an embedded struct field of such an object.
+func (te *TEnv) objRef(e Expr) (Term, types.Type) {
+	v := te.v
+	if sel, ok := e.(ESel); ok {
+		if _, isPkg := sel.X.(EIdent); !isPkg || true {
+			func() {}()
+		}
+		// try as a struct-valued field of an object
+		if bref, bt, ok := te.tryObjRef(sel.X); ok {
+			if path, ft, ok := fieldByName(bt, sel.F); ok && kindOf(ft) == KStruct {
+				cur := bref
+				ct := bt
+				for _, i := range path {
+					fty := structOf(ct).Field(i).Type()
+					if kindOf(fty) == KStruct {
+						cur = v.subRef(cur, deref(ct), i)
+						ct = types.NewPointer(fty)
+					} else {
+						tv := te.selField(TV{cur, ct}, i)
+						cur = tv.V.(Term)
+						ct = tv.T
+					}
+				}
+				return cur, ct
+			}
+		}
+	}
+	tv := te.tr(e)
+	t, ok := tv.V.(Term)
+	if !ok || t.Sort != SRef || tv.T == nil {
+		sfail("%s does not denote an object", e)
+	}
+	return t, tv.T
+}
+
+func (te *TEnv) tryObjRef(e Expr) (ref Term, t types.Type, ok bool) {
+	defer func() {
+		if r := recover(); r != nil {
+			if _, isSpec := r.(specErr); isSpec {
+				ok = false
+				return
+			}
+			panic(r)
+		}
+	}()
+	ref, t = te.objRef(e)
+	return ref, t, true
 }
